@@ -230,6 +230,18 @@ def unlinkOneS (E : Sync.Env α) (k : KWorld α) (p q : Pair) : KWorld α :=
 def unlinkS (E : Sync.Env α) (k : KWorld α) (p q : Pair) (both : Bool) : KWorld α :=
   if both then unlinkOneS E (unlinkOneS E k p q) q p else unlinkOneS E k p q
 
+/-- `_sync_trait_listener_deleted(ref, info)`, transcribed: in every partner table
+the entries of the collected partner go, tables left empty go, the lock table is
+not touched. -/
+def cbModel (dead : Nat) (i : Info) : Info :=
+  { i with tabs := (i.tabs.map (fun t => (t.1, t.2.filter (fun e => e.1 ≠ dead)))).filter (fun t => !t.2.isEmpty) }
+
+/-- Object `s`'s `__sync_trait__` as `Model.Sync` holds it, for the trait names `names`:
+the lock table, and the non-empty partner tables. -/
+def infoOf (names : List Name) (w : World α) (s : Nat) : Info :=
+  { lock := some ((w.locked.filter (fun l => l.1 = s)).map (·.2)),
+    tabs := (names.map (fun n => (n, w.partners (s, n)))).filter (fun t => !t.2.isEmpty) }
+
 /-- `_is_list_trait`: a `List` trait is one whose *handler* has the default-value
 type `trait_list_object`. -/
 def isListTrait (d : TraitDesc) : Bool :=
